@@ -9,10 +9,10 @@ import (
 // weights of the op kinds of a generated history (intent-encoded: every op is valid in every state)
 type hWeights struct {
 	deliver, ack, ackidx, save, savefail, savebegin, saveend, crash, rebalance, ackold, end, scrape, savequeue, failover int
-	absorbed                                                                                                   int // percentage of deliveries that are non-document / internal-key events
-	outside                                                                                                    int // per-mille of deliveries placed outside their snapshot (C06)
-	reopenFail                                                                                                 int // per-mille of transient ends whose first reopen attempt is refused
-	maxVb, minOps, maxOps                                                                                      int
+	absorbed                                                                                                             int // percentage of deliveries that are non-document / internal-key events
+	outside                                                                                                              int // per-mille of deliveries placed outside their snapshot (C06)
+	reopenFail                                                                                                           int // per-mille of transient ends whose first reopen attempt is refused
+	maxVb, minOps, maxOps                                                                                                int
 }
 
 var absorbedKinds = []string{"cc", "cd", "cf", "sc", "sd", "cm", "adv", "adv", "ikey", "txn"}
